@@ -10,13 +10,22 @@ import m5
 from vlib import *
 
 
+TIME_VIEW = False     # also offer every trace to the timing view model/M5time.v (joint theorems of props/C03cmd.v)
+LAST_TIME_REJECTS = []
+
+
 def eval_traces(work, outs, corr_mod, check_fn, tag):
-    """Per trace: (accepted?, first rejected index or None, [(idx, code, who, known)])."""
-    imports = "From KP Require Import model.Base model.Trace model.M5full corr.%s." % corr_mod
+    """Per trace: (accepted?, first rejected index or None, [(idx, code, who, known)]).  With TIME_VIEW the trace must also be
+    accepted by M5time (the first rejection of either view is reported; M5time's are listed in LAST_TIME_REJECTS)."""
+    imports = "From KP Require Import model.Base model.Trace model.M5full corr.%s.\nFrom KP Require model.M5time." % corr_mod
 
     def ev(i):
-        body = ("Definition tr := %s.\nDefinition R := Eval vm_compute in (first_reject step init tr 0, %s tr).\n"
-                % (m5.trace_term(outs[i]["events"]), check_fn))
+        acc = "first_reject step init tr 0"
+        if TIME_VIEW:
+            acc = ("match first_reject step init tr 0 with Some k => Some k | None => "
+                   "match first_reject M5time.step M5time.init tr 0 with Some k => Some (k + 1000000)%nat | None => None end end")
+        body = ("Definition tr := %s.\nDefinition R := Eval vm_compute in (%s, %s tr).\n"
+                % (m5.trace_term(outs[i]["events"]), acc, check_fn))
         return i, coq_eval(work, "%s_%d" % (tag, i), imports, body, "R")
     res = [None] * len(outs)
     with ThreadPoolExecutor(max_workers=16) as ex:
@@ -26,6 +35,9 @@ def eval_traces(work, outs, corr_mod, check_fn, tag):
             if not m:
                 raise RuntimeError("unexpected result term: " + t[:300])
             rej = None if m.group(1) == "None" else int(m.group(2))
+            if rej is not None and rej >= 1000000:
+                rej -= 1000000
+                LAST_TIME_REJECTS.append((tag, i, rej))
             fails = []
             lst = m.group(3)
             if lst not in ("[]", "nil"):
@@ -58,8 +70,24 @@ def run_property(prop, tier, seed, prop_file, corr_mod, check_fn, profiles, n_qu
     res = Result(prop, tier, seed)
     work = Work(prop)
     try:
-        ok, blog = coq_build(["props/%s.vo" % prop, "corr/%s.vo" % corr_mod, "model/M5full.vo"])
-        proofs_ok, pa = proof_obligations(work, res, prop_file, ok, blog)
+        prop_files = prop_file if isinstance(prop_file, list) else [prop_file]
+        ok, blog = coq_build(["props/%s.vo" % f[:-2] for f in prop_files] + ["corr/%s.vo" % corr_mod, "model/M5full.vo", "model/M5time.vo"])
+        proofs_ok, pa = True, ""
+        ob = {"obligations": 0, "discharged": 0, "theorems": []}
+        for pf in prop_files:
+            p_ok, out = proof_obligations(work, res, pf, ok, blog)
+            proofs_ok = proofs_ok and p_ok
+            pa += out
+            ob["obligations"] += res.coverage["obligations"]
+            ob["discharged"] += res.coverage["discharged"]
+            ob["theorems"] += res.coverage["theorems"]
+        res.coverage.update(ob)
+        res.coverage["checker_cmd"] = ("cd /verif/coq && ./build.sh  (coq_makefile + make, full .vo build; coqc 8.16.1) ; coqc props/"
+                                       + " props/".join(prop_files))
+        res.coverage["trusted_base"] = ["Coq 8.16.1 kernel incl. vm_compute (no native_compute)",
+                                        "Print Assumptions: %d of %d theorem(s) closed under the global context"
+                                        % (pa.count("Closed under the global context"), ob["obligations"])]
+        prop_file = ", ".join(prop_files)
         rnd = random.Random(seed)
         n = n_quick if tier == "quick" else n_thorough
         scenarios = list(forced or [])
@@ -143,7 +171,9 @@ def run_property(prop, tier, seed, prop_file, corr_mod, check_fn, profiles, n_qu
                 "scenario": scenarios[i], "trace_context": context(outs[i], f[0]), "seed": seed, "tier": tier})
         elif rejected or not harness_ok or not proofs_ok:
             pl = {"property": prop, "seed": seed, "tier": tier,
-                  "what": ("a trace of the real code is not accepted by model/M5full.v (run step init)" if rejected else
+                  "what": (("a trace of the real code is not accepted by the timing view model/M5time.v (joint theorems props/C03cmd.v)"
+                            if (rejected and any(t[1] == rejected[0] and t[0] == prop for t in LAST_TIME_REJECTS)) else
+                            "a trace of the real code is not accepted by model/M5full.v (run step init)") if rejected else
                            "harness does not build/run against the tree" if not harness_ok else
                            "proof obligations of props/%s do not check" % prop_file)}
             if rejected:
